@@ -78,7 +78,12 @@ def make_adapter(spec, alt=False):
             return ainteg.SumOverTime(None if p is None else float(Fraction(p)), bool(spec.get("per_time", True)),
                                       td(spec.get("init", 0)))
         if k == "delay_fixed":
-            return atime.DelayFixed(delay=td(spec["d"]))
+            d = spec["d"]
+            if isinstance(d, int) and d > 0:
+                # the documented alternative to timedelta: a calendar-aware relativedelta (whole hours here)
+                from dateutil.relativedelta import relativedelta
+                return atime.DelayFixed(delay=relativedelta(hours=d))
+            return atime.DelayFixed(delay=td(d))
         if k == "delay_pull":
             return atime.DelayToPull(int(spec["n"]), td(spec.get("x", 0)))
     if k == "scale":
@@ -160,7 +165,8 @@ class SimComp(TimeComponent):
 
     def out_value(self, oi, k):
         o = self.spec["outputs"][oi]
-        return float(o["base"] + k * o.get("inc", 1))
+        # "plateau": the value changes only every p-th publication (stretches of equal consecutive publications)
+        return float(o["base"] + (k // o.get("plateau", 1)) * o.get("inc", 1))
 
     def _initialize(self):
         s = self.spec
@@ -259,7 +265,8 @@ class SimComp(TimeComponent):
             self.status = ComponentStatus.FINISHED
 
     def _finalize(self):
-        pass
+        # the component's own finalisation hook (not the public wrapper) - exactly once per run
+        ins.REC and ins.REC.ev("HOOK", self._name, "finalize")
 
 
 class SimPull(Component):
@@ -304,7 +311,8 @@ class SimPull(Component):
         pass
 
     def _finalize(self):
-        pass
+        # the component's own finalisation hook (not the public wrapper) - exactly once per run
+        ins.REC and ins.REC.ev("HOOK", self._name, "finalize")
 
     def _provide(self, oi, t):
         o = self.spec["outputs"][oi]
@@ -358,7 +366,8 @@ class SimSink(Component):
         pass
 
     def _finalize(self):
-        pass
+        # the component's own finalisation hook (not the public wrapper) - exactly once per run
+        ins.REC and ins.REC.ev("HOOK", self._name, "finalize")
 
 
 def make_wsum(spec, world):
@@ -412,7 +421,8 @@ class SimStatic(Component):
         pass
 
     def _finalize(self):
-        pass
+        # the component's own finalisation hook (not the public wrapper) - exactly once per run
+        ins.REC and ins.REC.ev("HOOK", self._name, "finalize")
 
 
 # ------------------------------------------------------------ real library components
@@ -423,7 +433,7 @@ def _k_of(spec, t):
 def make_cbgen(spec, world):
     """REAL finam.components.CallbackGenerator standing in for an input-less time-stepped producer"""
     from finam.components import CallbackGenerator
-    cbs = {o["name"]: ((lambda t, o=o: float(o["base"] + _k_of(spec, t) * o.get("inc", 1))),
+    cbs = {o["name"]: ((lambda t, o=o: float(o["base"] + (_k_of(spec, t) // o.get("plateau", 1)) * o.get("inc", 1))),
                        Info(time=None, grid=NoGrid(), units=o.get("units", ""))) for o in spec["outputs"]}
     comp = CallbackGenerator(cbs, start=dt(spec["start"]), step=td(spec["steps"][0]))
     comp.with_name(spec["name"])
@@ -467,7 +477,7 @@ def make_cbcomp(spec, world):
         if inp is not None:
             for name, d in inp.items():
                 comp.pulls[name].append(("init" if first else k - 1, world.t0 if first else tick(time), mag(d)))
-        return {o["name"]: float(o["base"] + n * o.get("inc", 1)) for o in spec["outputs"]}
+        return {o["name"]: float(o["base"] + (n // o.get("plateau", 1)) * o.get("inc", 1)) for o in spec["outputs"]}
     comp = CallbackComponent(inputs={i["name"]: Info(time=None, grid=NoGrid(), units=i.get("units")) for i in spec["inputs"]},
                              outputs={o["name"]: Info(time=None, grid=NoGrid(), units=o.get("units", "")) for o in spec["outputs"]},
                              callback=cb, start=dt(spec["start"]), step=td(spec["steps"][0]),
@@ -545,6 +555,10 @@ class World:
                 a = ln["chain"][pi]
                 ad = make_adapter(a, alt=bool(sc.get("api", 0) & 4))
                 ad.with_name(f"L{li}a{pi}_{a['kind']}")
+                ol = sc.get("own_limit")
+                if ol and [li, pi] == ol["at"]:
+                    # the documented per-slot override: a limit of its own, the location still comes from the composition
+                    ad.memory_limit = ol["limit"]
                 self.adapters[(li, pi)] = ad
                 self.labels[id(ad)] = f"L{li}.a{pi}"
             return self.adapters[(li, pi)]
